@@ -317,8 +317,105 @@ impl Space for Mixed {
     }
 }
 
+/// "any set of files": the number of files is an axis of its own — table sizes (classic hash table growth,
+/// HET/BET index widths), block tables above one sector, the generated listfile and (attributes) sizes
+/// all depend on it and on nothing else
+struct Counts {
+    counts: Vec<usize>,
+    radices: Vec<u64>, // crypto(2) attrs(2: none/full) listfile(2) tcomp(2) version(4) count
+    scratch: Scratch,
+}
+impl Counts {
+    fn new(tier: Tier) -> Counts {
+        let counts: Vec<usize> = tier.pick(vec![0, 1, 2, 16, 17, 257, 1025], vec![0, 1, 2, 3, 7, 8, 9, 15, 16, 17, 31, 32, 33, 63, 64, 65, 127, 128, 129, 255, 256, 257, 511, 512, 513, 1023, 1024, 1025, 2049, 4097, 8193]);
+        Counts { radices: vec![2, 2, 2, 2, 4, counts.len() as u64], counts, scratch: Scratch::new("c01c") }
+    }
+    fn decode(&self, i: u64) -> (Config, usize) {
+        let d = gen::mixed_radix(i, &self.radices);
+        (Config { comp: 1, crypto: d[0] as usize, crc: false, attrs: if d[1] == 1 { 2 } else { 0 }, listfile: d[2] == 0, tcomp: d[3] == 1, shift: 3, version: d[4] as usize }, self.counts[d[5] as usize])
+    }
+}
+impl Space for Counts {
+    fn len(&self) -> u64 {
+        gen::product(&self.radices)
+    }
+    fn describe(&self, i: u64) -> Value {
+        let (cfg, n) = self.decode(i);
+        let mut v = cfg.json();
+        v["space"] = json!("counts");
+        v["file_count"] = json!(n);
+        v
+    }
+    fn case_timeout(&self) -> u64 {
+        300
+    }
+    fn run(&self, i: u64) -> CaseResult {
+        let (cfg, n) = self.decode(i);
+        let mut r = CaseResult::new();
+        r.key = format!("counts{i}");
+        if cfg.tcomp && cfg.version < 2 {
+            r.outcome = "skipped: table compression needs V3/V4".into();
+            return r;
+        }
+        // names in a few directories, mixed case; contents of 0..40 bytes derived from the index
+        let files: Vec<(String, Vec<u8>)> = (0..n)
+            .map(|k| {
+                let name = match k % 4 {
+                    0 => format!("Dir{}\\File{:05}.dat", k % 7, k),
+                    1 => format!("dir{}/sub/f{:05}.TXT", k % 5, k),
+                    2 => format!("F{:05}", k),
+                    _ => format!("World\\Maps\\m{}\\t_{:05}.adt", k % 3, k),
+                };
+                (name, gen::content(gen::TEXTURES[k % 4], (k * 7) % 41, 4096, k as u64))
+            })
+            .collect();
+        let mut b = cfg.builder();
+        for (nm, d) in &files {
+            b = cfg.add(b, nm, d.clone());
+        }
+        let path = self.scratch.path(&format!("n{i}.mpq"));
+        match b.build(&path) {
+            Ok(()) => {
+                r.nontrivial = n > 0;
+                r.outcome = "built".into();
+                if files.is_empty() {
+                    // the empty archive: must open, list nothing but special files, and find nothing
+                    match Archive::open(&path) {
+                        Ok(mut a) => {
+                            // the listing clause holds for archives that carry a listfile (without one, list()
+                            // enumerates the tables under generated names, e.g. the (attributes) entry)
+                            if !cfg.listfile {
+                            } else if let Ok(l) = a.list() {
+                                let extra: Vec<String> = l.iter().map(|e| e.name.clone()).filter(|x| !x.starts_with('(')).collect();
+                                if !extra.is_empty() {
+                                    r.viol("empty archive lists names that were never added", format!("{extra:?}"));
+                                }
+                            }
+                            if !matches!(a.read_file("F00000"), Err(wow_mpq::Error::FileNotFound(_))) {
+                                r.viol("empty archive: never-added name is not reported as not found", "F00000");
+                            }
+                        }
+                        Err(e) => r.viol("built archive does not open", format!("empty archive: {e}")),
+                    }
+                } else {
+                    check_archive(&cfg, &path, &files, &mut r);
+                }
+                r.count("archives_checked", 1);
+                r.count("files_checked", files.len() as u64);
+            }
+            Err(e) => {
+                r.err_return = true;
+                r.outcome = format!("build-err:{}", panic_class("", &e.to_string()));
+            }
+        }
+        let _ = std::fs::remove_file(&path);
+        r
+    }
+}
+
 fn build(name: &str, _arg: &str, tier: Tier) -> Box<dyn Space> {
     match name {
+        "counts" => Box::new(Counts::new(tier)),
         "main" => Box::new(Main::new(tier)),
         "mixed" => Box::new(Mixed::new(tier)),
         _ => panic!("space {name}"),
@@ -327,11 +424,12 @@ fn build(name: &str, _arg: &str, tier: Tier) -> Box<dyn Space> {
 
 fn main() {
     let Mode::Supervisor(mut c) = start("C01", "exploration", build) else { return };
-    c.rule = "full product version x sector shift x compression x crypto x sector CRC x attributes x listfile x table compression x content texture; each case builds one archive holding one file per boundary length (0..5, S-1, S, S+1, 2S, 2S+1, 5S+3) under names that collide in the hash-table start slot, then reads every file under 5 spellings, probes never-added names and compares list(). Non-trivial = the builder produced an archive; distinct by (configuration, texture).".into();
+    c.rule = "full product version x sector shift x compression x crypto x sector CRC x attributes x listfile x table compression x content texture; each case builds one archive holding one file per boundary length (0..5, S-1, S, S+1, 2S, 2S+1, 5S+3) under names that collide in the hash-table start slot, then reads every file under 5 spellings, probes never-added names and compares list(). Space `counts`: number of files {0,1,2,16,17,257,1025} (thorough: 31 values 0..8193 around every power of two) x version x listfile x table compression x attributes {none,full} x crypto {plain,encrypted}, small contents, names in several directories; same oracle. Space `mixed`: per-file options (every lossless codec x 3 crypto modes x 2 lengths) inside one archive, both insertion orders. Non-trivial = the builder produced an archive; distinct by (configuration, texture).".into();
     c.assume("ADPCM selectors are lossy: only length is compared for them, and the listing clause is not judged (the generated listfile itself is stored with the lossy default method)");
     c.assume("build() returning Err is a legitimate refusal (counted); the same files are then retried one per archive");
     c.assume("table compression is only a distinct configuration for V3/V4 (skipped for V1/V2)");
     c.run_space("mixed", "");
+    c.run_space("counts", "");
     c.run_space("main", "");
     c.extra_cov.insert("axes".into(), json!({"version": 4, "shift": if c.tier == Tier::Quick { json!([0,1,3,5,8]) } else { json!("0..=8") }, "compression": COMP_NAMES, "crypto": CRYPTO_NAMES, "sector_crc": 2, "attributes": ATTR_NAMES, "listfile": 2, "table_compression": 2, "texture": gen::TEXTURES}));
     c.finish();
